@@ -45,6 +45,9 @@ Decided (for ALL values, by enumeration of order types -- see osmlint/ordertype.
                                     pointer vector to std::stable_sort
  S2-unique-forwards-and-erases      ...::unique passes the caller's predicate unchanged to std::unique over the whole vector and
                                     erases from the returned iterator to end()
+ S3-sort-unique-total               every normal path of sort / unique reaches std::stable_sort / std::unique + erase, except under
+                                    a guard that is provably a no-op: the path conditions over size() / empty() / begin()==end()
+                                    are decided by ORDERTYPE and skipping must be impossible for any size >= 2
 
 Follows from the above and is therefore not a separate rule: consistency of the orderings with operator== (T3 + T4 + E1: neither
 a<b nor b<a under ..._without_timestamp iff type, id, version are equal); "ids are compared only through id_order and ==" in
@@ -1004,6 +1007,98 @@ def collection_rules(fb, R):
                               and _vec_iter_call(fn, e['args'][1], 'end', vec) is not None and _flows_from(fn, e['args'][0], c['id'])
                               and fn.elem_dominates(c['id'], e['id']))
             R.check(bool(ok), rule, key, fn.site, msg)
+            # ---- S3: the algorithm (for unique: up to the erase) is reached on every normal path, except under a size guard that
+            # is provably a no-op for it (at most one element)
+            k3 = key + '#all-paths'
+            ers = [n for n in fn.all_nodes() if n.get('k') == 'call' and n.get('q') == 'std::vector::erase'] if name == 'unique' else []
+            if len(ers) == 1:
+                target = {ers[0]['id']}
+            elif len(calls) == 1:
+                target = {calls[0]['id']}
+            else:
+                R.bad('S3-sort-unique-total', k3, fn.site, 'cannot be established: %s' % msg)
+                continue
+            _totality(fb, R, fn, k3, vec, target, algo if name == 'sort' else algo + ' + erase')
+
+
+def _totality(fb, R, fn, key, vec, target, what):
+    rule = 'S3-sort-unique-total'
+
+    def on_vec(n):
+        r = fn.sn(n['recv']) if n.get('recv') is not None else None
+        return r is not None and r.get('k') == 'member' and r.get('name') == vec and fn.is_this_member(r['id'])
+
+    def atoms(f, n):
+        if n.get('k') != 'call':
+            return None
+        if not n.get('args') and n.get('q') == 'std::vector::size' and on_vec(n):
+            return ('size', OT.UINT64)
+        if not n.get('args') and n.get('q') == 'std::vector::empty' and on_vec(n):
+            return ('empty', 'bool')
+        if n.get('op') in ('==', '!='):
+            a = [x for x in ([n.get('recv')] if n.get('recv') is not None else []) + list(n.get('args', [])) if x is not None]
+            if len(a) == 2:
+                ends = {w for w in ('begin', 'end', 'cbegin', 'cend') for x in a if _vec_iter_call(fn, x, w, vec)}
+                if len(ends) == 2 and ends & {'begin', 'cbegin'} and ends & {'end', 'cend'}:
+                    return ('empty' if n['op'] == '==' else 'nonempty', 'bool')
+        return None
+
+    skipping = []
+    budget = [4000]
+
+    def dfs(b, cons, seen):
+        budget[0] -= 1
+        if budget[0] < 0:
+            return
+        blk = fn.blocks[b]
+        if any(e in target for e in blk['elems']):
+            return
+        if any(fn.nodes[e].get('k') == 'throw' for e in blk['elems']):
+            return          # not a normal path
+        if b == fn.exit:
+            skipping.append(cons)
+            return
+        succs = blk['succs']
+        prog = None
+        if 'cond' in blk and len(succs) == 2 and blk.get('termcls') != 'SwitchStmt':
+            try:
+                prog = OT.compile_expression(fb, fn, blk['cond'], atoms)
+                if not (set(prog.int_syms) <= {'size'} and prog.bool_syms <= {'empty', 'nonempty'}):
+                    prog = None
+            except OT.Inexact:
+                prog = None
+        for idx, nx in enumerate(succs):
+            if nx is None or nx in seen:
+                continue
+            c2 = cons + [(prog, idx == 0)] if (prog is not None and len(succs) == 2) else cons
+            dfs(nx, c2, seen | {nx})
+
+    dfs(fn.entry, [], {fn.entry})
+    if budget[0] < 0:
+        R.broken('%s: too many paths' % key)
+        return
+    bad = None
+    for cons in skipping:
+        consts = {0, 1, 2}
+        for prog, _s in cons:
+            consts |= set(prog.consts)
+        for w in OT.worlds({'size': OT.UINT64}, consts, ('empty', 'nonempty')):
+            if w.b('empty') != w.eq('size', 0) or w.b('nonempty') == w.b('empty'):
+                continue
+            if not w.ge('size', 2):
+                continue        # at most one element: nothing to sort, no duplicates
+            try:
+                if all(OT.run(prog, w).as_bool() == sense for prog, sense in cons):
+                    bad = ('a normal path leaves the function without reaching %s for a collection of %s element(s)%s'
+                           % (what, w.values['size'], '' if cons else ' (unconditionally or under a condition that is not a size test)'))
+                    break
+            except OT.Inexact as e:
+                R.broken('%s: %s' % (key, e))
+                return
+        if bad:
+            break
+    R.check(bad is None, rule, key, fn.site,
+            '%s; skipping is only a no-op when the collection has at most one element (size() < 2 / empty())' % bad)
 
 
 def _flows_from(fn, nid, call_id):
@@ -1066,6 +1161,7 @@ def run(ctx):
         ('K3-accept-updates-state', 3),
         ('S1-sort-forwards-comparator', 1),
         ('S2-unique-forwards-and-erases', 1),
+        ('S3-sort-unique-total', 2),
     ]
     degraded = getattr(R, 'c16_degraded', set())
     for rule, n in floors:
@@ -1081,4 +1177,4 @@ SELFTESTS = [(r, 'c16_orders.cpp', _selftest) for r in (
     'O2-id_order-strict-weak-order', 'O3-id_order-documented-rule', 'T1-tuple-mirror', 'T2-component-one-sided', 'T3-component-keys',
     'T4-id-key-agrees-with-id_order', 'T5-id-accessors', 'E1-equality-reads-type-id-version', 'D1-delegation-preserves-meaning',
     'K1-rejects-later-type', 'K2-accepts-iff-ascending', 'K3-accept-updates-state', 'S1-sort-forwards-comparator',
-    'S2-unique-forwards-and-erases')]
+    'S2-unique-forwards-and-erases', 'S3-sort-unique-total')]
